@@ -344,6 +344,58 @@ fn boundary_sweep(id: i32, cp: CodePage, thorough: bool) -> (u64, Vec<V>) {
     (n, vs)
 }
 
+/// Every string of up to `max` characters over a small adversarial alphabet:
+/// characters that look like an escape for an unmappable character ("&#1;",
+/// "?"), unmappable characters themselves, and a multi-byte character.  The
+/// encoding of each must be the concatenation of its characters' encodings.
+fn short_string_sweep(id: i32, cp: CodePage, thorough: bool) -> (u64, Vec<V>) {
+    let mut alphabet: Vec<char> = vec!['a', '&', '#', '1', ';', '?'];
+    if thorough {
+        alphabet.push('x');
+    }
+    for (name, c) in class_chars(id) {
+        if name != "ascii" && name != "non-ascii-1-byte" && !alphabet.contains(&c) {
+            alphabet.push(c);
+        }
+    }
+    let max = if thorough { 6 } else { 5 };
+    let per_char: Vec<Vec<u8>> = alphabet.iter().map(|c| cp.encode(&c.to_string())).collect();
+    let k = alphabet.len() as u64;
+    let mut n = 0u64;
+    let mut vs: Vec<V> = Vec::new();
+    for len in 1..=max {
+        let total = k.pow(len as u32);
+        for mut idx in 0..total {
+            let mut s = String::with_capacity(len * 4);
+            let mut concat = Vec::with_capacity(len * 4);
+            for _ in 0..len {
+                let d = (idx % k) as usize;
+                idx /= k;
+                s.push(alphabet[d]);
+                concat.extend_from_slice(&per_char[d]);
+            }
+            n += 1;
+            match catch(|| cp.encode(&s)) {
+                Err(pn) => {
+                    if vs.len() < 4 {
+                        vs.push(V { sig: format!("encode-panic:cp{}:{}", id, panic_site(&pn)), detail: format!("code page {}: encoding {:?} panicked: {}", id, s, pn), replay: json!({"kind":"c14-string","cp":id,"string":s}) });
+                    }
+                }
+                Ok(got) => {
+                    if got != concat && vs.len() < 4 {
+                        vs.push(V {
+                            sig: format!("not-concatenation:cp{}:short-string", id),
+                            detail: format!("code page {}: encode({:?}) = {:02X?}, the concatenation of its characters' encodings is {:02X?}", id, s, got, concat),
+                            replay: json!({"kind":"c14-string","cp":id,"string":s}),
+                        });
+                    }
+                }
+            }
+        }
+    }
+    (n, vs)
+}
+
 fn id_sweep(thorough: bool) -> (u64, Vec<V>) {
     let mut vs = Vec::new();
     let supported: Vec<i32> = PAGES.iter().map(|p| p.0).collect();
@@ -449,7 +501,10 @@ pub fn run(tier: Tier) -> i32 {
             let (st, mut vs) = char_sweep(*id, cp);
             let (nd, v2) = decode_sweep(*id, cp, thorough);
             vs.extend(v2);
-            let (nb, v3) = boundary_sweep(*id, cp, thorough);
+            let (nb, mut v3) = boundary_sweep(*id, cp, thorough);
+            let (ns, v4) = short_string_sweep(*id, cp, thorough);
+            let nb = nb + ns;
+            v3.extend(v4);
             vs.extend(v3);
             (*id, st, nd, nb, vs)
         })
@@ -488,7 +543,7 @@ pub fn run(tier: Tier) -> i32 {
     rep.set("ids_checked", nid);
     rep.set("per_page", serde_json::Value::Object(per_page.into_iter().collect()));
     rep.set("exhaustive", true);
-    rep.set("rule", "all 1,112,064 Unicode scalar values x 26 code pages (encode, decode back, compare with the named encoding); every 1- and 2-byte sequence and lead-restricted 3-byte sequences per page for decode; strings with every prefix length around the 1024-byte internal buffer x every character class at the boundary; from_id over +-70000 and range ends (thorough: all 2^32). distinct_nontrivial = (character, page) pairs that have a round-tripping non-'?' encoding");
+    rep.set("rule", "all 1,112,064 Unicode scalar values x 26 code pages (encode, decode back, compare with the named encoding); every 1- and 2-byte sequence and lead-restricted 3-byte sequences per page for decode; strings with every prefix length around the 1024-byte internal buffer x every character class at the boundary; every string of <= 5 (thorough 6) characters over {a & # 1 ; ?, (x), a multi-byte character, an unmappable BMP and an unmappable astral character} against the concatenation of its characters' encodings; from_id over +-70000 and range ends (thorough: all 2^32). distinct_nontrivial = (character, page) pairs that have a round-tripping non-'?' encoding");
     rep.sample(json!({"cp": 932, "char": "あ", "lib_bytes": CodePage::from_id(932).map(|c| c.encode("あ")), "ref_bytes": ref_encode(932, "あ")}));
     rep.sample(json!({"cp": 1252, "bytes": [0xFF, 0xFE, 0x61, 0x00], "lib": CodePage::from_id(1252).map(|c| c.decode(&[0xFF, 0xFE, 0x61, 0x00])), "ref": ref_decode(1252, &[0xFF, 0xFE, 0x61, 0x00])}));
     rep.finish()
